@@ -281,11 +281,17 @@ theorem arrayLoop_sim {p : PM Gen} (hp' : PosOnly Any p e) : ∀ n, PosOnly Any 
   | n + 1 => by
     intro s t hp
     rw [arrayLoop]
+    simp only [getTokenpos_bind]
+    rw [← hp]
     refine Sim.bind (hp' s t hp) ?_
     intro _ _ s1 t1 _ hp1
-    refine Sim.bind (arrayLoop_sim hp' n s1 t1 hp1) ?_
-    intro _ _ s2 t2 _ hp2
-    exact Sim.pure trivial hp2
+    simp only [getTokenpos_bind]
+    rw [← hp1]
+    split
+    · exact Sim.pure trivial hp1
+    · refine Sim.bind (arrayLoop_sim hp' n s1 t1 hp1) ?_
+      intro _ _ s2 t2 _ hp2
+      exact Sim.pure trivial hp2
 
 theorem seqLoop_sim {p : PM Gen} (hp' : PosOnly Any p e) : ∀ fuel acc acc' (s t : PState), s.pos = t.pos →
     Sim Any (seqLoop p fuel acc e s) (seqLoop p fuel acc' e t)
@@ -460,13 +466,65 @@ theorem dispatch_sim (f32 : List Char → Option (List Char)) : ∀ (l : List (T
     · exact dispatch_sim f32 rest tag b p h
 end
 
+/-- behind cursor position `p` there are only comments up to a `/end` token -/
+def EndBehindComments (e : Env) (p : Nat) : Prop :=
+  ∃ q, p ≤ q ∧ (∀ i, p ≤ i → i < q → ∃ t, e.toks[i]? = some t ∧ t.ty = 6) ∧ ∃ t, e.toks[q]? = some t ∧ t.ty = 2
+
 /-- the definition `sp` describes the content that starts at cursor position `p`: its interpreter, started there,
-    succeeds and stops in front of a `/end` -/
+    succeeds and stops in front of a `/end`, possibly with comments in between -/
 def Accepts (e : Env) (f32 : List Char → Option (List Char)) (ctx : Ctx) (sp : Spec) (p : Nat) : Prop :=
-  ∃ s0 g s1, s0.pos = p ∧ itemP f32 sp ctx e s0 = .ok g s1 ∧ AtEnd e s1
+  ∃ s0 g s1, s0.pos = p ∧ itemP f32 sp ctx e s0 = .ok g s1 ∧ EndBehindComments e s1.pos
 
 theorem AtEnd.samePos {s t : PState} (h : AtEnd e s) (hp : t.pos = s.pos) : AtEnd e t := by
   unfold AtEnd at *; rw [hp]; exact h
+
+/-- `skipComments` with a sufficient budget stops at the first token that is not a comment -/
+theorem skipComments_stops (ctx : Ctx) : ∀ (fuel : Nat) (s : PState), e.toks.size - s.pos < fuel →
+    ∃ s2, skipComments ctx fuel e s = .ok () s2 ∧ s.pos ≤ s2.pos ∧
+      (∀ i, s.pos ≤ i → i < s2.pos → ∃ t, e.toks[i]? = some t ∧ t.ty = 6) ∧
+      (∀ t, e.toks[s2.pos]? = some t → t.ty ≠ 6)
+  | 0, _, h => by omega
+  | fuel + 1, s, h => by
+    rw [skipComments]
+    simp only [peekToken_bind]
+    cases ht : e.toks[s.pos]? with
+    | none =>
+      refine ⟨s, rfl, Nat.le_refl _, fun i h1 h2 => by omega, fun t h' => ?_⟩
+      rw [ht] at h'; cases h'
+    | some t =>
+      dsimp only
+      split
+      · rename_i h6
+        rw [bind_eq, getToken_eval, ht]
+        dsimp only
+        have hlt := lt_of_getElem?_some ht
+        obtain ⟨s2, hr, hp, hc, hn⟩ := skipComments_stops ctx fuel (adv s t) (by show _ - (s.pos + 1) < fuel; omega)
+        refine ⟨s2, hr, by have : s.pos + 1 ≤ s2.pos := hp; omega, ?_, hn⟩
+        intro i h1 h2
+        by_cases hi : i = s.pos
+        · rw [hi]; exact ⟨t, ht, h6⟩
+        · exact hc i (by show s.pos + 1 ≤ i; omega) h2
+      · rename_i h6
+        refine ⟨s, rfl, Nat.le_refl _, fun i h1 h2 => by omega, fun t' h' => ?_⟩
+        rw [ht] at h'; cases h'; exact h6
+
+theorem endBehindComments_iff {p : Nat} {s2 : PState} (hp : p ≤ s2.pos)
+    (hc : ∀ i, p ≤ i → i < s2.pos → ∃ t, e.toks[i]? = some t ∧ t.ty = 6)
+    (hn : ∀ t, e.toks[s2.pos]? = some t → t.ty ≠ 6) :
+    EndBehindComments e p ↔ AtEnd e s2 := by
+  constructor
+  · rintro ⟨q, hq, hcq, t, htq, h2⟩
+    have : q = s2.pos := by
+      rcases Nat.lt_trichotomy q s2.pos with h | h | h
+      · obtain ⟨t', ht', h6⟩ := hc q hq h
+        rw [htq] at ht'; cases ht'; omega
+      · exact h
+      · obtain ⟨t', ht', h6⟩ := hcq s2.pos hp h
+        exact absurd h6 (hn t' ht')
+    rw [this] at htq
+    exact ⟨t, htq, h2⟩
+  · rintro ⟨t, ht, h2⟩
+    exact ⟨s2.pos, hp, hc, t, ht, h2⟩
 
 theorem fromSpec_iff {f32 : List Char → Option (List Char)} {ctx : Ctx} {sp : Spec} {s : PState} {r : Option Gen}
     {s' : PState} (h : fromSpec f32 ctx sp e s = .ok r s') : r.isSome ↔ Accepts e f32 ctx sp s.pos := by
@@ -491,30 +549,41 @@ theorem fromSpec_iff {f32 : List Char → Option (List Char)} {ctx : Ctx} {sp : 
     | fuel => rw [hr] at this; exact this.elim
   rcases attempt_ok h with ⟨g, s1, h1, h2⟩ | ⟨d, s1, h1, h2⟩
   · dsimp only at h2
+    simp only [getEnv_bind] at h2
+    obtain ⟨s2, hsk, hp2, hc, hn⟩ := skipComments_stops (e := e) ctx (e.toks.size + 1) s1 (by omega)
+    rw [bind_eq, hsk] at h2
+    dsimp only at h2
+    have hiff := endBehindComments_iff hp2 hc hn
+    -- acceptance in terms of the state reached here
+    have hacc : Accepts e f32 ctx sp s.pos ↔ AtEnd e s2 := by
+      rw [← hiff]
+      constructor
+      · rintro ⟨s0, g0, s3, hp0, h0, hend⟩
+        obtain ⟨g', t1, hr, hp1⟩ := hsim s0 g0 s3 hp0 h0
+        rw [h1] at hr; cases hr
+        rw [hp1]; exact hend
+      · intro hend; exact ⟨s, g, s1, rfl, h1, hend⟩
+    rw [hacc]
     simp only [peekToken_bind] at h2
-    cases ht : e.toks[s1.pos]? with
+    cases ht : e.toks[s2.pos]? with
     | none =>
       rw [ht] at h2
-      rw [hreset s1 h2]
+      rw [hreset s2 h2]
       refine ⟨fun h => (by cases h), ?_⟩
-      rintro ⟨s0, g0, s2, hp0, h0, t, ht2, _⟩
-      obtain ⟨g', t1, hr, hp1⟩ := hsim s0 g0 s2 hp0 h0
-      rw [h1] at hr; cases hr
-      rw [hp1] at ht; rw [ht] at ht2; cases ht2
+      rintro ⟨t, ht2, _⟩
+      rw [ht] at ht2; cases ht2
     | some t =>
       rw [ht] at h2
       dsimp only at h2
       split at h2
       · rename_i h22
         obtain ⟨rfl, rfl⟩ := pure_ok h2
-        exact ⟨fun _ => ⟨s, g, s1, rfl, h1, t, ht, h22⟩, fun _ => rfl⟩
+        exact ⟨fun _ => ⟨t, ht, h22⟩, fun _ => rfl⟩
       · rename_i h22
-        rw [hreset s1 h2]
+        rw [hreset s2 h2]
         refine ⟨fun h => (by cases h), ?_⟩
-        rintro ⟨s0, g0, s2, hp0, h0, t', ht2, h2'⟩
-        obtain ⟨g', t1, hr, hp1⟩ := hsim s0 g0 s2 hp0 h0
-        rw [h1] at hr; cases hr
-        rw [hp1] at ht; rw [ht] at ht2; cases ht2
+        rintro ⟨t', ht2, h2'⟩
+        rw [ht] at ht2; cases ht2
         exact (h22 h2').elim
   · rw [hreset s1 h2]
     refine ⟨fun h => (by cases h), ?_⟩
